@@ -589,6 +589,8 @@ def explore(ctx, rec, pid, profile, n_quick, n_thorough, want_prefixes, runtimes
     """Run random schedules; report violations whose clause starts with one of want_prefixes for this property."""
     rng = ctx.rng
     n = n_quick if ctx.quick else n_thorough
+    if ctx.broken and ctx.quick:
+        n *= 5          # a proof obligation or a tie no longer checks: this is the search for a failing input - look harder
     import core
     corpus = []
     if not getattr(ctx, "_corpus_done_" + pid, False):
